@@ -10,7 +10,8 @@ META = {
              'rdp / grdp / rdp_fixed / mp_grdp / min_point_rdp with random Distance x Metrics x Order x '
              't=10^U(-4,0) (U(0,1) for R2) x length/min_points in 0..n+2; distinct = digest(curve, simplifier, '
              'configuration); non-trivial = reduction with >= 3 retained points, or a curve from a hostile '
-             'family (constant, collinear run ending at 0, small-integer plateaus, staircases)'),
+             'family (constant, collinear run ending at 0, small-integer plateaus, staircases); long curves (2800..9000 points, half of '
+             'them at a length of 256j - 1, 256j or 256j + 1) in every shard'),
     'require': {'wellformed': 3000, 'nontrivial': 500},
     'scale': {'quick': 1, 'thorough': 80},
     'quick_cases': 9000, 'thorough_cases': 240000,
